@@ -111,7 +111,7 @@ def main():
                                         'no_failing_input_found': 'no-failing-input-found' in tail})
                     except Exception as e:  # noqa
                         replays.append({'replay': rp, 'error': str(e)})
-                meta['detected'] = {'check': f'./check {pid} --tier {args.tier} (VERIF_REPO=patched scratch worktree)', 'exit': r.returncode,
+                meta['detected'] = {'check': f'./check {pid} --tier {args.tier} (VERIF_REPO=patched scratch worktree)', 'seed': int(os.environ.get('VERIF_SEED', '0') or 0), 'exit': r.returncode,
                                     'violation': bool(viol), 'replays': replays, 'tail': out[-300:] if not viol else ''}
                 if meta.get('kind') == 'refactor':
                     # the property still holds: the check must stay quiet, or report a broken tie and nothing else
